@@ -1,6 +1,7 @@
 package main
 
 import (
+	v3thrift_proxy "github.com/envoyproxy/go-control-plane/envoy/extensions/filters/network/thrift_proxy/v3"
 	"encoding/json"
 	"fmt"
 	"math"
@@ -431,8 +432,15 @@ func runC17(c *ctx) {
 
 type gChain struct {
 	Port   int
-	Kind   string // "rds" | "inline" | "none" (HCM without route specifier) | "thrift"
+	Kind   string // "rds" | "inline" | "none" (HCM without route specifier) | "thrift" (a chain whose filter is a Thrift proxy)
 	Bucket int    // tokens per fill; -1 = no rate-limit filter
+	// ThriftAfter: the chain carries a Thrift-proxy filter after its connection manager (a Thrift service behind the same port)
+	ThriftAfter bool
+}
+
+func thriftProxyFilter() *v3listenerpb.Filter {
+	tp := &v3thrift_proxy.ThriftProxy{RouteConfig: &v3thrift_proxy.RouteConfiguration{Name: "in-thrift"}}
+	return &v3listenerpb.Filter{Name: "thrift", ConfigType: &v3listenerpb.Filter_TypedConfig{TypedConfig: mustAny(tp)}}
 }
 
 func inboundListener(chains []gChain) *anypb.Any {
@@ -454,6 +462,11 @@ func inboundListener(chains []gChain) *anypb.Any {
 				&ratelimitv3.LocalRateLimit{StatPrefix: "x", TokenBucket: &typedv3.TokenBucket{MaxTokens: 1000, TokensPerFill: wrapperspb.UInt32(uint32(ch.Bucket))}})}}}
 		}
 		fc.Filters = []*v3listenerpb.Filter{{ConfigType: &v3listenerpb.Filter_TypedConfig{TypedConfig: mustAny(hcm)}}}
+		if ch.Kind == "thrift" {
+			fc.Filters = []*v3listenerpb.Filter{thriftProxyFilter()}
+		} else if ch.ThriftAfter {
+			fc.Filters = append(fc.Filters, thriftProxyFilter())
+		}
 		l.FilterChains = append(l.FilterChains, fc)
 	}
 	return mustAny(l)
@@ -526,12 +539,18 @@ func runC18(c *ctx) {
 					ch := gChain{Port: ports[pi], Kind: []string{"rds", "inline", "rds", "none"}[r.intn(4)]}
 					ports = append(ports[:pi], ports[pi+1:]...) // distinct chain ports
 					ch.Bucket = []int{-1, 0, 5, 100, 100000}[r.intn(5)]
+					if r.chance(12) {
+						ch.Kind = "thrift" // the inbound side of a Thrift service: no rate limit is configured on such a chain
+						ch.Bucket = -1
+					} else if r.chance(10) {
+						ch.ThriftAfter = true
+					}
 					chains = append(chains, ch)
 				}
 				anys = append(anys, inboundListener(chains))
 				l := make([]interface{}, 0, len(chains))
 				for _, ch := range chains {
-					l = append(l, obj{"port": ch.Port, "kind": ch.Kind, "bucket": ch.Bucket})
+					l = append(l, obj{"port": ch.Port, "kind": ch.Kind, "bucket": ch.Bucket, "thriftAfter": ch.ThriftAfter})
 				}
 				cj = l
 			}
